@@ -119,6 +119,10 @@ def run(tier, corrupt=False):
             for p in accepted:
                 for _ in range(per):
                     vcases.append({"p": idx[p["name"]], "obj": gen.obj(p["code"], p["name"]), "san0": rng.random() < 0.3})
+                if '"tag": "length"' in json.dumps(p["code"]):
+                    gen.boundary = True        # as many items as each byte/char length field can carry
+                    vcases.append({"p": idx[p["name"]], "obj": gen.obj(p["code"], p["name"]), "san0": False})
+                    gen.boundary = False
             model = tlc_given(tmp, progs, types, vcases, "given")
             dcases = [{"kind": "ser", "prog": progs[c["p"] - 1]["name"], "san0": c["san0"], "fuel": -1, "obj": c["obj"], "salt": i} for i, c in enumerate(vcases)]
             imp, results = run_drivers_parallel(src, wt, accepted, types, dcases)
